@@ -14,7 +14,8 @@
 
   The pointer structure (prev/next links) is abstracted to a `List Nat` of node ordinals; the tie is the node-list dump of the
   real Builder (forward and backward traversal) after every operation (harness/c08.cpp).
-  The model follows the code *with fixes/C08-1..4 applied* (see fixes/README.md).
+  The model follows the code *with fixes/C08-1..4 applied* (see fixes/README.md) and with /repo fix C14-12 (embed_const_pool refuses an
+  already bound label before the alignment node is added).
 -/
 namespace AsmjitVerif.Builder
 
@@ -277,6 +278,10 @@ def sizeOk (n : Nat) : Bool := n = 0 || n = 1 || n = 2 || n = 4 || n = 8
 
 def clearReserved (o : Nat) : Nat := o / 2 * 2
 
+/-- the `cpool` line is well formed: item size 1/2/4/8/16 and a whole number of items (otherwise the harness answers `pre`) -/
+def cpoolPre (isz : Nat) (bytes : String) : Bool :=
+  (isz = 1 || isz = 2 || isz = 4 || isz = 8 || isz = 16) && hexLen bytes % isz == 0
+
 /-- creating a node: returns its ordinal -/
 def Front.newNode (f : Front) (n : Node) : Front × Nat := ({ f with nodes := f.nodes ++ [n] }, f.nodes.length)
 
@@ -331,13 +336,14 @@ def front (f : Front) (active : Nat → Bool) : Op → Front × Res × List Act
       | none => let (f, n) := f.newNode (.section s)
                 ({ f with sectionNodes := (s, n) :: f.sectionNodes }, .ok, [.regSection n, .section n])
   | .cpool l isz bytes =>
-      -- BaseBuilder::embed_const_pool: align(kData, pool.alignment()); bind(label); EmbedDataNode(pool bytes)
-      if !(isz = 1 || isz = 2 || isz = 4 || isz = 8 || isz = 16) || hexLen bytes % isz != 0 then (f, .pre, []) else
+      -- BaseBuilder::embed_const_pool: label valid; label node not linked yet (tested BEFORE anything is added - /repo fix C14-12);
+      -- align(kData, pool.alignment()); bind(label); EmbedDataNode(pool bytes)
+      if !cpoolPre isz bytes then (f, .pre, []) else
       if !f.labelValid l then (f, .err "InvalidLabel", []) else
-      let (f, na) := f.newNode (.align 1 (if hexLen bytes = 0 then 0 else isz))
       match f.labelNodes.getD l none with
       | some n =>
-          if active n then (f, .err "LabelAlreadyBound", [.add na]) else
+          if active n then (f, .err "LabelAlreadyBound", []) else
+          let (f, na) := f.newNode (.align 1 (if hexLen bytes = 0 then 0 else isz))
           let (f, nd) := f.newNode (.data 35 (hexLen bytes) 1 bytes)
           (f, .ok, [.add na, .add n, .add nd])
       | none => (f, .pre, [])
